@@ -41,7 +41,7 @@ End == /\ R.e = "end"
        \* if that one is already closing the event is lost with it (lib.rs notify_any: "consumed"), so one closing candidate suffices.
        /\ (\A s \in 1..Len(em) : s \notin delivered => (em[s].live = {} \/ \E i \in em[s].live : MayBeClosing(i))) = TRUE   \* "= TRUE": evaluate as an expression, not as an action (no branching)
        /\ UNCHANGED <<est, peerOf, closing, closingPeer, em, delivered, lastSeq>>
-Skip == R.e \in {"emitQueued", "polled"} /\ UNCHANGED <<est, peerOf, closing, closingPeer, em, delivered, lastSeq>>
+Skip == R.e \in {"emitQueued", "polled", "ranTask"} /\ UNCHANGED <<est, peerOf, closing, closingPeer, em, delivered, lastSeq>>
 Next == l <= NRec /\ l' = l + 1 /\ (Reset \/ Est \/ Closed \/ CloseOne \/ ClosePeer \/ Emit \/ Deliver \/ End \/ Skip)
 Progress == Mark(l)
 ====
